@@ -616,3 +616,15 @@ def stray_stores(out, allowed=()) -> list:
     is modelled by its initial content: `a = np.zeros(n); a[mask] = v` still *reads* as zeros).  A rule that decides a function by
     the value it returns must not trust that value while such stores exist: the names they hit."""
     return sorted({e.target for e in out.events if e.kind == "store" and e.target not in allowed and e.target != "cache"})
+
+
+def unread_helper(*values):
+    """The name of a private helper the evaluator had to keep opaque (its body has loops or lies too deep) when one of the
+    given values or guards depends on its result - such a value is a placeholder, not a fact about the code."""
+    from .. import report
+    for v in values:
+        t = str(v)
+        for name in report.OPAQUE_FALLBACKS:
+            if name + "(" in t:
+                return name
+    return None
